@@ -31,7 +31,7 @@ BOUND = {
     "thorough": "L(6,3) x all pairs x 6 shapes with default names; L(5,3) x {prefix, suffix, equal} one-name deviations over all ordered node pairs x {plain, two}; error-side catalogue",
 }
 
-NAMES = ["a", "b", "c", "d", "e", "f", "g"]
+NAMES = ["a", "b", "c", "d", "e", "f", "g", "h", "i", "j", "k", "l", "m", "n", "o", "p"]
 CHOICES = [{"list_name": "c", "name": "x", "label": "X", "cf": "1"}, {"list_name": "c", "name": "y", "label": "Y", "cf": "2"}]
 SHAPES = ["plain", "two", "lastsaved", "lastsaved-text", "indexed", "instpred", "trigger"]
 
@@ -58,7 +58,46 @@ def apply_dev(names, dev):
 
 
 # ---------------------------------------------------------------- space --------------
+def _nest(kinds, leaf_children):
+    """chain of containers (outermost first) around the given children tuple"""
+    ch = tuple(leaf_children)
+    for k in reversed(kinds):
+        ch = ((k, ch),)
+    return ch
+
+
+def deep_cases(tier):
+    """referrer and target on two branches of unequal depth (0..4 groups each, shared prefix) below a repeat that itself sits
+    below 0..2 wrappers: the depth-4 part of the quantifier, beyond the node budget of L(N,3)"""
+    maxd = 3 if tier == "quick" else 4
+    wrappers = [(), ("g",), ("r",), ("g", "r"), ("r", "g")] if tier == "quick" else [(), ("g",), ("r",), ("g", "g"), ("g", "r"), ("r", "g"), ("r", "r")]
+    for w in wrappers:
+        for top in ("r", "g"):
+            for a in range(0, maxd + 1):
+                for b in range(0, maxd + 1):
+                    for pfx in range(0, min(a, b) + 1):
+                        for inner in ("g", "r"):
+                            if inner == "r" and (a - pfx == 0 or tier == "quick" and (a + b) % 2):
+                                continue
+                            ka = (["g"] * (a - pfx))
+                            if inner == "r" and ka:
+                                ka[-1] = "r"  # the referrer's innermost container is itself a repeat
+                            brA = _nest(ka, (("q",),))
+                            brB = _nest(["g"] * (b - pfx), (("q",),))
+                            body = _nest(["g"] * pfx, (*brA, *brB))
+                            forest = _nest([*w, top], body) + (("q",),)
+                            nodes = flatten(forest, NAMES)
+                            qs = [nd["i"] for nd in nodes if nd["kind"] == "q"]
+                            xa, xb = qs[0], qs[1]
+                            for xi, ti in ((xa, xb), (xb, xa), (xa, qs[2]), (qs[2], xa)):
+                                for shape in ("plain", "two"):
+                                    yield {"f": forest_to_json(forest), "dev": None, "x": xi, "t": ti, "shape": shape}
+
+
 def blocks(tier):
+    n_deep = sum(1 for _ in deep_cases(tier))
+    for i in range(0, n_deep, 150):
+        yield ("deep", i, min(n_deep, i + 150))
     N = 5 if tier == "quick" else 6
     fs = list(forests_upto(N, 3))
     for fi in range(len(fs)):
@@ -69,6 +108,10 @@ def blocks(tier):
     for fi in range(nfd):
         for k in kinds:
             yield ("dev", fi, k)
+    if tier == "quick":
+        # equal names (e.g. a repeat named like a question elsewhere: legal while nobody references the name) on L(4,3)
+        for fi in range(sum(1 for _ in forests_upto(4, 3))):
+            yield ("dev", fi, "equal")
     yield ("errors",)
 
 
@@ -82,6 +125,11 @@ def _forest(fi):
 def expand(block, tier):
     if block[0] == "errors":
         yield from error_cases()
+        return
+    if block[0] == "deep":
+        import itertools
+
+        yield from itertools.islice(deep_cases(tier), block[1], block[2])
         return
     forest = _forest(block[1])
     fj = forest_to_json(forest)
